@@ -267,9 +267,15 @@ def build(seed, tier, focus='all'):
                   rename_all="camelCase", from_word=True, from_none=True)
     e_pascal = c.enum([c.variant("AlphaBeta"), c.variant("Gamma", style="struct", fields=[field("inner_val", V)])],
                       rename_all="PascalCase")
-    enums = [e_plain, e_mixed, e_word, e_fn, e_pascal]
     flat_inner = c.struct([field("width", U), field("label", O), field("extra", V, default="trait")])
     flat_mid = c.struct([field("depth", U, default="trait"), field("rest", ty("recv", flat_inner), flatten=True)])
+    # `allow_unknown_fields = false` written out on the enum (the same as not writing it), a struct variant under it
+    e_strict = c.enum([c.variant("Plain"), c.variant("Hello", style="struct", rename="hi", fields=[field("user", V), field("silent", B, default="trait")])])
+    c.decls[e_strict - 1]["allow_unknown_false"] = True
+    # a struct variant is parsed as a struct receiver: its own flatten member receives what it does not know
+    e_flat = c.enum([c.variant("Off"), c.variant("Tuned", style="struct", fields=[field("level", U), field("extra", ty("recv", flat_inner), flatten=True)])],
+                    rename_all="snake_case")
+    enums = [e_plain, e_mixed, e_word, e_fn, e_pascal, e_strict, e_flat]
 
     # --- FromMeta roots: every single option on the designated field, each crossed with container options
     def root(fields, **kw):
@@ -749,6 +755,8 @@ def render_enum(c, d, out):
         co.append("from_none = fnone_%s" % name)
     if d["allow_unknown"]:
         co.append("allow_unknown_fields")
+    if d.get("allow_unknown_false"):
+        co.append("allow_unknown_fields = false")
     out.append("#[derive(Debug, Clone, darling::FromMeta)]")
     if co:
         out.append("#[darling(%s)]" % ", ".join(co))
